@@ -146,6 +146,9 @@ type run struct {
 	forkNode     *Fork
 	lastMark     int
 	dir          string // real mode: the directory
+	fmtSegs      map[string]*segRec
+	lastBatchSeg string
+	submitted    map[uint64][][]byte // index -> encodings ever submitted (format check, real mode)
 	// index window ever used on this execution path (inherited by forks)
 	minIdx, maxIdx uint64
 }
@@ -440,7 +443,24 @@ func (r *run) doStep(s Step) {
 				nb += r.encodedLen(lg)
 			}
 			err := r.w.StoreLogs(logs)
-			ev = map[string]any{"ev": "store", "idxs": idxs, "cids": s.Cids, "res": errClass(err), "nbytes": nb}
+			if r.job.CheckFormat {
+				if r.submitted == nil {
+					r.submitted = map[uint64][][]byte{}
+				}
+				for _, lg := range logs {
+					r.submitted[lg.Index] = append(r.submitted[lg.Index], r.encode(lg))
+				}
+				if err == nil && !r.job.Real {
+					r.noteBatch(logs)
+				}
+			}
+			mayrej := false
+			for _, lg := range logs {
+				if r.encodedLen(lg) > 64*1024*1024 {
+					mayrej = true // larger than the documented maximum: the WAL may (must, if it cannot read it back) refuse it
+				}
+			}
+			ev = map[string]any{"ev": "store", "idxs": idxs, "cids": s.Cids, "res": errClass(err), "nbytes": nb, "mayrej": mayrej}
 			if err != nil {
 				ev["msg"] = err.Error()
 			}
@@ -507,6 +527,12 @@ func (r *run) doStep(s Step) {
 		if !r.job.Real {
 			r.reportCreates()
 		}
+		if r.job.CheckFormat && !r.job.Real && r.fmtSegs != nil {
+			r.noteSeals(s.Op == "store")
+		}
+	}
+	if r.job.CheckFormat && !r.dead && (s.Op == "store" || s.Op == "delete" || s.Op == "reopen") {
+		r.checkFormat(s.Op)
 	}
 	if s.Op == "delete" && !r.job.Real {
 		r.reportDir("delete")
@@ -559,7 +585,7 @@ func (r *run) reportMetrics() {
 	m := map[string]any{"ev": "metrics"}
 	for k, v := range s.Counters {
 		if v > 1<<30 {
-			v = 1 << 30 // TLC integers are 32 bit; a wrapped counter is wrong anyway
+			v = 1<<30 + v%1000 // TLC integers are 32 bit
 		}
 		m[k] = v
 	}
@@ -735,6 +761,9 @@ func RunJob(job *Job, out *Out) {
 				defer r.guard("close")
 				r.w.Close()
 			}()
+		}
+		if r.job.CheckFormat && !r.dead {
+			r.checkFormatReal()
 		}
 		os.RemoveAll(r.dir)
 	}
